@@ -1,7 +1,7 @@
 /-
   C01 — set algebra is exact for every mix of value representations.
 
-  Property theorems only (helper lemmas: Arrai/C01/{Lemmas,Contracts,Ops,Builder,With,Union}.lean).
+  Property theorems only (helper lemmas: Arrai/C01/{Lemmas,Contracts,Ops,Builder,With,Union,PowerSet,Programs}.lean).
   Part 1: the specification is finite-set algebra: every operator of `Spec` has exactly the textbook
           members and returns a canonical (strictly sorted) set, so `=` on results is set equality.
   Part 2: keyed sequences (String / Bytes / Array share one library over `List (Option α)` + offset).
@@ -11,7 +11,7 @@
   Part 4: the operators of rel/ops_set.go, proved from the contracts for every mix of representations.
   Part 5: the known-finding classes are real: the full-strength statements fail on a witness.
 -/
-import Arrai.C01.Union
+import Arrai.C01.Programs
 
 namespace Arrai.C01.Theorems
 open Arrai Arrai.C01 Arrai.FinSet KSeq
@@ -205,28 +205,14 @@ theorem canonicalSet_refines (r : Rep) (h : r.WF) : (canonicalSet r).WF ∧ (can
   obtain ⟨w, m⟩ := canonicalSet_spec r h
   exact ⟨w, mk_congr _ _ m⟩
 
-/-- `PowerSet`: the fast paths (EmptySet, GenericSet through frozen.Powerset) -/
-theorem powerSet_refines_partial (r : Rep) (h : r.WF)
-    (hr : r = .plain .empty ∨ ∃ xs, r = .plain (.generic xs)) :
-    ∃ r', powerSet r = .ok r' ∧ r'.den = FS.powerset r.den := by
-  rcases hr with rfl | ⟨xs, rfl⟩
-  · refine ⟨_, rfl, ?_⟩
-    obtain ⟨_, w2⟩ := finish_spec [.set []] (finishAdm_single _)
-    apply den_eq_of_mem _ _ (FS.sorted_powerset _)
-    intro x
-    rw [w2]
-    simp [FS.powerset, FS.sublists, Rep.den, Rep.members, Plain.members, FinSet.mk, FinSet.ins]
-  · refine ⟨_, rfl, ?_⟩
-    apply den_eq_of_mem _ _ (FS.sorted_powerset _)
-    intro x
-    show x ∈ (fromFrozen _).members ↔ _
-    rw [fromFrozen_members]
-    have : (Rep.plain (Plain.generic xs)).den = xs := mk_of_sorted xs h.1
-    rw [this]
-    rfl
+/-- `PowerSet` of every representation (EmptySet, GenericSet through frozen.Powerset, every other one
+through the loop `newSets.With(s.With(c))` / `Union(result, newSets)`) is the power set of the set
+denoted, provided every subset built on the way is representable -/
+theorem powerSet_refines_partial (r : Rep) (h : r.WF) (hadm : PowerAdm r.members) :
+    ∃ r', powerSet r = .ok r' ∧ r'.WF ∧ r'.den = FS.powerset r.den := powerSet_spec r h hadm
 
-/-- the full-strength statement for `PowerSet` (every representation), covered by the correspondence
-check only -/
+/-- the same with the admissibility hypothesis replaced by the specification-level class predicates
+of the known findings; what is not proved is only `¬isSuper ∧ ¬isBytesGap → PowerAdm` -/
 def powerSet_full : Prop :=
   ∀ r : Rep, r.WF → ¬ isSuper (.set (FS.powerset r.den)) = true → ¬ isBytesGap (.set (FS.powerset r.den)) = true →
     ∃ r', powerSet r = .ok r' ∧ r'.den = FS.powerset r.den
@@ -335,8 +321,26 @@ theorem mem_refines (b : Rep) (hb : b.WF) (v : Impl.IV) :
   rw [Bool.eq_iff_iff, Rep.has_iff_den b hb]
   simp
 
-/-- the full-strength statement for whole programs (operands produced by earlier operators), which the
-per-operator theorems above are the induction steps of; covered by the correspondence check -/
+/-- literals are represented exactly and well-formedly -/
+theorem literal_refines_partial (l : Lit) (h : LitAdm l) :
+    IVOK (Impl.litIV l) ∧ (Impl.litIV l).toV = l.den := litIV_spec l h
+
+/-- whole programs (operands produced by earlier operators, to any depth): along every admissible
+evaluation, whenever the specification yields a value the evaluator on representations yields a
+well-formed representation in normal form of exactly that value.  `Adm e` is the conjunction of the
+step hypotheses met while evaluating `e`. -/
+theorem programs_refine_partial (e : E) (h : Adm e) (v : V) (hs : Spec.eval e = .ok v) :
+    ∃ iv, Impl.eval e = .ok iv ∧ IVOK iv ∧ iv.toV = v := eval_refines e h v hs
+
+/-- hence the observable the check compares (canon of the value) agrees -/
+theorem programs_observable_partial (e : E) (h : Adm e) (v : V) (hs : Spec.eval e = .ok v) :
+    obsI (Impl.eval e) = obsV (Spec.eval e) := by
+  obtain ⟨iv, e1, _, t⟩ := eval_refines e h v hs
+  rw [e1, hs, ← t]; rfl
+
+/-- the same with `Adm e` replaced by the generator's class predicate; what is not proved is only
+`classOf e = "good" → Adm e` (and the error outcomes, where the order of evaluation of the members
+would have to be related) -/
 def programs_full : Prop :=
   ∀ e : E, classOf e = "good" → obsI (Impl.eval e) = obsV (Spec.eval e) ∨ Spec.eval e = .unspec
 
@@ -346,12 +350,31 @@ def programs_full : Prop :=
 def with_full : Prop :=
   ∀ (r : Rep) (v : V), r.WF → r.Norm → ∃ r', r.with_ v = .ok r' ∧ r'.WF ∧ r'.den = FinSet.ins v r.den
 
-/-- … fails: an array cannot take a second item at an occupied index (KF-superimposed) -/
+/-- … fails: an array cannot take a second item at an occupied index; the fall-back keeps the item
+tuples in a GenericSet, which is not well-formed (KF-superimposed) -/
 theorem with_full_false : ¬ with_full := by
   intro h
-  obtain ⟨r', e, _⟩ := h (.plain (.arr [some (.num 1)] 0 1)) (itemV 0 (.num 2)) rfl
+  obtain ⟨r', e, hw, _⟩ := h (.plain (.arr [some (.num 1)] 0 1)) (itemV 0 (.num 2)) rfl
     (Or.inr (by simp [Rep.members, Plain.members, kden]))
-  simp [Rep.with_, Plain.with_, asItem, itemV, pairV, arrWithItem, kget] at e
+  have e2 : toUnionSetWithItem (newGenericSetFromSet (.arr [some (.num 1)] 0 1)) (itemV 0 (.num 2)) = .ok r' := by
+    simpa [Rep.with_, Plain.with_, asItem_itemV, arrWithItem, kget] using e
+  have hb : bucketOf (itemV 0 (.num 2)) ≠ (newGenericSetFromSet (.arr [some (.num 1)] 0 1)).bucket := by
+    rw [bucketOf_itemV]; unfold newGenericSetFromSet; rw [fromFrozen_bucket]; intro hc; cases hc
+  unfold toUnionSetWithItem at e2
+  simp only [hb, if_false, Outcome.ok.injEq] at e2
+  subst e2
+  have hw' : BucketsWF [((newGenericSetFromSet (.arr [some (.num 1)] 0 1)).bucket,
+      newGenericSetFromSet (.arr [some (.num 1)] 0 1)),
+      (bucketOf (itemV 0 (.num 2)), single (itemV 0 (.num 2)))] := hw.1
+  obtain ⟨gw, _, _⟩ := hw'.2 _ List.mem_cons_self
+  have hm : itemV 0 (.num 1) ∈ (newGenericSetFromSet (.arr [some (.num 1)] 0 1)).members := by
+    unfold newGenericSetFromSet
+    rw [fromFrozen_members, FinSet.mem_mk]
+    simp [Plain.members, kden]
+  have hbk := Plain.members_bucket _ gw _ hm
+  unfold newGenericSetFromSet at hbk
+  rw [bucketOf_itemV, fromFrozen_bucket] at hbk
+  cases hbk
 
 /-- full-strength `Without` (well-formed result for every operand) … -/
 def without_full : Prop := ∀ (r : Rep) (v : V), r.WF → (r.without v).WF
@@ -465,5 +488,30 @@ example : (Rep.union [(.generic, .generic [.num 1, .num 2]), (.bytesByte, .bytes
     rcases hi with rfl | rfl
     · exact ⟨1, by simp⟩
     · exact ⟨2, by simp⟩
+
+/-- an admissible nested program: `(({1} | {2}) count)` — the union of two evaluated literals, then
+an operator applied to its result -/
+example : Adm (.count (.bin .union (.lit (.set [.num 1])) (.lit (.set [.num 2])))) := by
+  have hl : ∀ n : Int, LitAdm (.set [.num n]) := fun n => finishAdm_single (.num n)
+  refine ⟨hl 1, hl 2, ?_⟩
+  intro x y hx hy
+  have ex : x = Impl.litIV (.set [.num 1]) := by cases hx; rfl
+  have ey : y = Impl.litIV (.set [.num 2]) := by cases hy; rfl
+  subst ex; subst ey
+  obtain ⟨w1, m1⟩ := finish_spec [V.num 1] (finishAdm_single _)
+  obtain ⟨w2, m2⟩ := finish_spec [V.num 2] (finishAdm_single _)
+  obtain ⟨p, hp⟩ := plain_of_one_bucket _ w1 .generic (fun z hz => by
+    have := (m1 z).1 hz; simp only [List.mem_singleton] at this; subst this; rfl)
+  obtain ⟨q, hq⟩ := plain_of_one_bucket _ w2 .generic (fun z hz => by
+    have := (m2 z).1 hz; simp only [List.mem_singleton] at this; subst this; rfl)
+  show OpAdm .union (.set (finish [V.num 1])) (.set (finish [V.num 2]))
+  rw [hp, hq]
+  show WithAllAdm (.plain p) q.members
+  apply withAllAdm_of_nontuples
+  intro z hz
+  have : z ∈ (finish [V.num 2]).members := by rw [hq]; exact hz
+  have := (m2 z).1 this
+  simp only [List.mem_singleton] at this
+  exact Or.inl ⟨2, this⟩
 
 end Arrai.C01.Theorems
